@@ -180,6 +180,24 @@ theorem write_completes_under_progress (v : List Byte) (off : Nat) (f : File) (a
   exact ⟨g, hg, write_returns_exact v off f g as hg⟩
 
 open GooseVerif.Model.ShortWrite in
+/-- A `ReadTo` that returns normally has filled the whole buffer with the block, however the kernel split the transfer —
+nothing of what the buffer held before survives (a short read cannot hide in a used buffer). -/
+theorem readto_returns_exact (len off : Nat) (f buf g : File) (as : List Ans)
+    (h : readLoop len off f buf 0 as = some (.ok g)) : ∀ j, j < len → g j = f (off + j) := by
+  intro j hj
+  have := (read_inv len off f buf as buf 0 (Nat.zero_le _) (partialR_zero buf f off) _ h).2 g rfl j
+  rw [this, if_pos hj]
+
+open GooseVerif.Model.ShortWrite in
+/-- A `ReadTo` that panics has overwritten a prefix of the buffer with the block's bytes and left the rest as the caller passed
+it; in no outcome does it write beyond `len(buf)`. -/
+theorem readto_panic_prefix (len off : Nat) (f buf : File) (as : List Ans) (out : Model.ShortWrite.Out)
+    (h : readLoop len off f buf 0 as = some out) :
+    ∃ m, m ≤ len ∧ ∀ j, out.file j = if j < m then f (off + j) else buf j := by
+  obtain ⟨⟨m, hm, hp⟩, _⟩ := read_inv len off f buf as buf 0 (Nat.zero_le _) (partialR_zero buf f off) _ h
+  exact ⟨m, hm, hp⟩
+
+open GooseVerif.Model.ShortWrite in
 /-- Contrast (the loop with the offset not advanced, as in the seeded change C09-m17): it returns normally with the tail of the
 block written over its head. -/
 theorem no_advance_is_wrong :
@@ -198,6 +216,12 @@ example : ∃ g, writeLoop [1, 2, 3, 4] 8 (fun _ => 9) 0 [.wrote 3, .wrote 7] = 
 open GooseVerif.Model.ShortWrite in
 example : ∃ g, writeLoop [1, 2, 3, 4] 8 (fun _ => 9) 0 [.wrote 3, .err] = some (.panic g) ∧
     (List.range 14).map g = [9, 9, 9, 9, 9, 9, 9, 9, 1, 2, 3, 9, 9, 9] := ⟨_, rfl, by decide⟩
+open GooseVerif.Model.ShortWrite in
+example : ∃ g, readLoop 4 8 (fun i => UInt8.ofNat i) (fun _ => 77) 0 [.wrote 1, .wrote 2, .wrote 9] = some (.ok g) ∧
+    (List.range 6).map g = [8, 9, 10, 11, 77, 77] := ⟨_, rfl, by decide⟩
+open GooseVerif.Model.ShortWrite in
+example : ∃ g, readLoop 4 8 (fun i => UInt8.ofNat i) (fun _ => 77) 0 [.wrote 3, .wrote 0] = some (.panic g) ∧
+    (List.range 6).map g = [8, 9, 10, 77, 77, 77] := ⟨_, rfl, by decide⟩
 open GooseVerif.Model.ShortWrite in
 example : ∃ g, writeLoop [1, 2, 3, 4] 8 (fun _ => 9) 0 [.wrote 2, .wrote 0] = some (.panic g) ∧ g 9 = 2 ∧ g 10 = 9 :=
   ⟨_, rfl, by decide, by decide⟩
